@@ -1,6 +1,6 @@
 #!/bin/bash
 # usage: try_mutation.sh <patch.diff> <pid> [tier]   -- apply to /repo, run check, undo
-p=$1; pid=$2; tier=${3:-quick}
+p=$1; [ -d "$p" ] && p=$p/patch.diff; pid=$2; tier=${3:-quick}
 cd /repo && git apply "$p" || { echo "PATCH DOES NOT APPLY"; exit 2; }
 cd /verif && timeout 3000 ./check $pid --tier $tier > /tmp/w/mut_$pid.log 2>&1; rc=$?
 cd /repo && git checkout -- . && git status --short | head -3
